@@ -46,6 +46,7 @@ type Msg = PsiHashMessage<TestNodeId, TestNodeInfo>;
 type Proto = PsiHashDiscoveryProtocol<SqliteStore, TestSubscription, TestNodeId, TestNodeInfo>;
 type Res = Result<DiscoveryResult<TestNodeId, TestNodeInfo>, PsiHashError<SqliteStore, TestSubscription, TestNodeId, TestNodeInfo>>;
 
+/// Minimum size of the topic table; it grows to the largest topic number of the case (large-set cases).
 const MAX_TOPICS: u64 = 64;
 const MAX_NODES: u64 = 32;
 const MAX_JUNK: u64 = 8;
@@ -78,10 +79,10 @@ struct World {
 }
 
 impl World {
-    fn new(seed: u64) -> Self {
+    fn new(seed: u64, n_topics: u64) -> Self {
         World {
             seed,
-            topics: (0..MAX_TOPICS).map(|j| derive("topic", seed, j)).collect(),
+            topics: (0..n_topics.max(MAX_TOPICS)).map(|j| derive("topic", seed, j)).collect(),
             nodes: (0..MAX_NODES).map(|k| SigningKey::from_bytes(&derive("node", seed, k)).verifying_key()).collect(),
             junk: (0..MAX_JUNK).map(|k| derive("junk", seed, k)).collect(),
             transports: Mutex::new(BTreeMap::new()),
@@ -480,7 +481,18 @@ fn main() {
         let f: Vec<&str> = payload.split('|').collect();
         let head: Vec<&str> = f[0].split_whitespace().collect();
         let seed: u64 = head[1].parse().expect("seed");
-        let w = World::new(seed);
+        // topic table large enough for every topic number of the case (topic lists and address books)
+        let mut n_topics = 0u64;
+        let n_lists = if head[0] == "honest" { 2 } else { 1 };
+        for i in 1..=n_lists {
+            n_topics = parse_csv(f[i]).iter().fold(n_topics, |m, j| m.max(j + 1));
+        }
+        for i in n_lists + 1..=2 * n_lists {
+            for e in parse_book(f[i]) {
+                n_topics = e.topics.iter().fold(n_topics, |m, j| m.max(j + 1));
+            }
+        }
+        let w = World::new(seed, n_topics);
         let fut = async {
             match head[0] {
                 "honest" => {
